@@ -65,7 +65,7 @@ pub fn write_valid(ctx: &Ctx, p: &Program, prop: &str) -> Option<Written> {
         );
         return None;
     }
-    Some(Written { bytes: h.bytes(), run })
+    Some(Written { bytes: h.snapshot(), run })
 }
 
 /// Read back and compare against the expected scene. Returns the read-back on success.
